@@ -29,13 +29,13 @@ type ptok struct {
 }
 
 // display: block / list-item / table-* / none-with-break in the UA style sheet, plus br and hr.
-var uaBlock = setOf("html body address blockquote center dialog div figure figcaption footer form header hr legend listing main p plaintext pre search xmp article aside h1 h2 h3 h4 h5 h6 hgroup nav section dir dd dl dt menu ol ul li table caption colgroup col thead tbody tfoot tr td th details summary fieldset optgroup option br noscript")
+var uaBlock = setOf("html body address blockquote center dialog div figure figcaption footer form header hr legend listing main p plaintext pre search xmp article aside h1 h2 h3 h4 h5 h6 hgroup nav section dir dd dl dt menu ol ul li table caption colgroup col thead tbody tfoot tr td th details summary fieldset optgroup option br noscript rt")
 
 // display:none in the UA style sheet: contributes nothing, white space collapses across it.
 var uaNone = setOf("head script style template datalist title meta link base param area noembed noframes rp source track")
 
 // replaced elements and inline-block boxes: atomic in the inline formatting context.
-var uaAtomic = setOf("img input button select textarea svg math meter progress object video audio canvas iframe embed marquee rt")
+var uaAtomic = setOf("img input button select textarea svg math meter progress object video audio canvas iframe embed marquee")
 
 type projector struct {
 	toks       []ptok
@@ -82,6 +82,12 @@ func (p *projector) walk(n *html.Node, pre bool) {
 			if c.Namespace != "" {
 				// foreign content below an svg/math root is part of that atomic box
 				continue
+			}
+			if tag == "audio" {
+				if _, ok := attrOf(c, "controls"); !ok {
+					p.edge = "<audio>" // audio:not([controls]) { display: none }
+					continue
+				}
 			}
 			switch {
 			case uaNone[tag]:
